@@ -254,4 +254,13 @@ theorem resume_anchors_with_current_hold_up (w : World K) (wt : K → K) (s : Su
   obtain ⟨h3, h4⟩ := lookToInner_anchor ({ w with suspended := none } : World K) s wr hw hut
   rw [h1, h2, h3, h4]
   exact ⟨rfl, rfl⟩
+/-- **A peal-speed change does not end the wait for the leader**: while the line is "not yet", changing
+(or re-sending) the peal speed changes the interval only; the line stays "not yet", so
+(`leader_turn_is_pull_off`, `pull_off_only_polls`) Wheatley keeps waiting for the leader's strike. -/
+theorem speed_change_keeps_waiting (r : Reg K) (newSpeed realTime : K) (h : r.start = .inf) :
+    (r.changePealSpeed newSpeed realTime).start = .inf := by
+  unfold Reg.changePealSpeed
+  simp only [h]
+  split <;> rfl
+
 end Wheatley.C15
